@@ -10,7 +10,12 @@
 (* with q_j = t_j + x_j * Delta when nobody deviates.  A fault flips one   *)
 (* bit u[col][row] of the extension matrix in transit: the sender's q_row  *)
 (* changes in bit `col` iff Delta_col = 1.  Rows >= N of the last byte are *)
-(* padding and never used.                                                 *)
+(* padding and never used.  A second fault may flip another row of the     *)
+(* same column: the two cancel in the check exactly when their challenge   *)
+(* coefficients are equal - which a fresh challenge stream makes as        *)
+(* unlikely as a zero coefficient, and a stream that restarts (the same    *)
+(* coefficients for payload row i and check row i, or for rows one block   *)
+(* apart) makes certain.                                                   *)
 (***************************************************************************)
 EXTENDS Integers, Sequences, FiniteSets, TLC
 
@@ -41,17 +46,19 @@ AllRow == 0..(Rows + PadRows - 1)
 \* fixed arbitrary receiver outputs t_j (the identity is linear in them)
 T(r) == [i \in 0..(KB - 1) |-> ((r * 3 + i * 5 + r * i) % 7) % 2]
 
-VARIABLES delta, x, chi, flip, accepted, phase
-vars == <<delta, x, chi, flip, accepted, phase>>
+VARIABLES delta, x, chi, flip, flip2, accepted, phase
+vars == <<delta, x, chi, flip, flip2, accepted, phase>>
 NoFlip == <<-1, -1>>
 
 Init == /\ delta \in Poly /\ x \in [Row -> Bit] /\ chi \in [Row -> Poly]
         /\ flip \in {NoFlip} \cup ((0..(KB - 1)) \X AllRow)
+        \* an optional second flip: same column, another row
+        /\ flip2 \in {NoFlip} \cup (IF flip = NoFlip THEN {} ELSE {<<flip[1], r>> : r \in AllRow \ {flip[2]}})
         /\ accepted = FALSE /\ phase = "check"
 
 \* the sender's q_j after the (possibly altered) matrix arrived
 Q(r) == LET honest == PXor(T(r), IF x[r] = 1 THEN delta ELSE ZeroP(KB))
-        IN IF flip # NoFlip /\ flip[2] = r /\ delta[flip[1]] = 1
+        IN IF flip # NoFlip /\ (flip[2] = r \/ (flip2 # NoFlip /\ flip2[2] = r)) /\ delta[flip[1]] = 1
            THEN [honest EXCEPT ![flip[1]] = 1 - @] ELSE honest
 
 Check == /\ phase = "check"
@@ -63,18 +70,24 @@ Check == /\ phase = "check"
                 hi == \A d \in KB..(2 * KB - 1) : qq[d] = rhs[d]
             IN accepted' = IF CheckBothHalves THEN lo /\ hi ELSE lo \/ hi
          /\ phase' = "done"
-         /\ UNCHANGED <<delta, x, chi, flip>>
+         /\ UNCHANGED <<delta, x, chi, flip, flip2>>
 Spec == Init /\ [][Check]_vars
 
 Correlated == \A r \in Row : Q(r) = PXor(T(r), IF x[r] = 1 THEN delta ELSE ZeroP(KB))
 \* honest executions never abort
 HonestAccepts == (phase = "done" /\ flip = NoFlip) => accepted
+\* the used rows that were altered, and the sum of their challenge coefficients
+Hit == {r \in Row : flip # NoFlip /\ (flip[2] = r \/ (flip2 # NoFlip /\ flip2[2] = r))}
+RECURSIVE ChiSum(_)
+ChiSum(rs) == IF rs = {} THEN ZeroP(KB) ELSE LET r == CHOOSE r \in rs : TRUE IN PXor(chi[r], ChiSum(rs \ {r}))
 \* whatever is accepted still satisfies the correlation for the receiver's original choices
-\* (except when the challenge coefficient of the altered row is 0: probability 2^-128 with KB = 128)
+\* (except when the challenge coefficients of the altered rows cancel: one coefficient that is 0, two that are
+\* equal - probability 2^-128 each with KB = 128 and a challenge stream that never repeats)
 Sound == (phase = "done" /\ accepted) =>
-            (Correlated \/ (flip # NoFlip /\ flip[2] < Rows /\ chi[flip[2]] = ZeroP(KB)))
-\* the exact outcome of a single flip: rejected iff the column is selected by Delta, the row is used and chi_row # 0
+            (Correlated \/ (Hit # {} /\ ChiSum(Hit) = ZeroP(KB)))
+\* the exact outcome of one or two flips in a column: rejected iff Delta selects the column and the coefficients
+\* of the altered used rows do not cancel
 Exact == (phase = "done" /\ flip # NoFlip) =>
-            (accepted <=> (delta[flip[1]] = 0 \/ flip[2] >= Rows \/ chi[flip[2]] = ZeroP(KB)))
+            (accepted <=> (delta[flip[1]] = 0 \/ ChiSum(Hit) = ZeroP(KB)))
 Safety == HonestAccepts /\ Sound /\ Exact
 =============================================================================
